@@ -922,3 +922,14 @@ Proof.
     rewrite forallb_forall in H1. specialize (H1 a Ha). now destruct a.
   - intros r Hr. specialize (H2 r Hr). apply existsb_exists in H2 as [e [He Hm]]. now exists e.
 Qed.
+
+(* ---------------------------------------------------------------- check_finite forwarding *)
+Theorem finite_routing_sound (t : list centry) :
+  finite_routing_ok t = true ->
+  (forall e, In e t -> c_forwarded e = true) /\
+  (forall td fn n, In (td, fn, n) finite_required -> (n <= count_sites td fn t)%nat).
+Proof.
+  unfold finite_routing_ok. intros H. apply andb_prop in H as [H1 H2].
+  rewrite forallb_forall in H1, H2. split; [exact H1|].
+  intros td fn n Hr. specialize (H2 _ Hr). cbn in H2. now apply Nat.leb_le.
+Qed.
